@@ -2337,6 +2337,22 @@ iwrc _jbl_node_from_binn(const binn *bn, struct jbl_node **node, bool clone_stri
   return rc;
 }
 
+// rfc6901 array index: "0" or decimal digits without a leading zero (and small enough for an int)
+static bool _jbl_ptr_array_index(const char *s, int64_t *out) {
+  int64_t v = 0;
+  if ((*s == '\0') || ((*s == '0') && (s[1] != '\0'))) {
+    return false;
+  }
+  for ( ; *s; ++s) {
+    if ((*s < '0') || (*s > '9') || (v > (INT32_MAX - 9) / 10)) {
+      return false;
+    }
+    v = v * 10 + (*s - '0');
+  }
+  *out = v;
+  return true;
+}
+
 static struct jbl_node* _jbl_node_find(struct jbl_node *node, struct jbl_ptr *ptr, int from, int to) {
   if (!ptr || !node) {
     return 0;
@@ -2359,7 +2375,10 @@ static struct jbl_node* _jbl_node_find(struct jbl_node *node, struct jbl_ptr *pt
           }
         }
       } else {
-        int64_t idx = iwatoi(ptr->n[i]);
+        int64_t idx;
+        if (!_jbl_ptr_array_index(ptr->n[i], &idx)) {
+          return 0;
+        }
         for (n = n->child; n; n = n->next) {
           if (idx == n->klidx) {
             break;
@@ -2646,7 +2665,11 @@ static iwrc _jbl_target_apply_patch(struct jbl_node *target, const struct jbl_pa
         }
         _jbn_add_item(parent, value); // Add to end of array
       } else {                        // Insert into the specified index
-        int idx = iwatoi(path->n[lastidx]);
+        int64_t idx64;
+        if (!_jbl_ptr_array_index(path->n[lastidx], &idx64)) {
+          return JBL_ERROR_PATCH_INVALID_ARRAY_INDEX;
+        }
+        int idx = (int) idx64;
         int cnt = idx;
         struct jbl_node *child = parent->child;
         while (child && cnt > 0) {
